@@ -30,6 +30,8 @@ type Report struct {
 	Assumptions []string
 	Trusted     []string
 	Extra       map[string]any
+	// CheckerBroken lists self-validation failures (a stored variant the rules no longer report).
+	CheckerBroken []string
 	start       time.Time
 }
 
@@ -272,6 +274,9 @@ func (r *Report) Finish(w *World, verifDir string, loadErr error) int {
 		"known_findings": kf,
 		"exhaustive":     false,
 	}
+	if len(r.CheckerBroken) > 0 {
+		cov["checker_broken"] = r.CheckerBroken
+	}
 	for k, v := range r.Extra {
 		cov[k] = v
 	}
@@ -319,6 +324,12 @@ func (r *Report) Finish(w *World, verifDir string, loadErr error) int {
 	if nViol+nUndec > 0 {
 		fmt.Printf("VIOLATION property=%s replay=%s\n", r.Property, repPath)
 		return 1
+	}
+	if len(r.CheckerBroken) > 0 {
+		for _, c := range r.CheckerBroken {
+			fmt.Printf("CHECKER-BROKEN: property=%s %s\n", r.Property, c)
+		}
+		return 2
 	}
 	return 0
 }
